@@ -6,18 +6,131 @@
 //! aborts and stack overflows. No class-B (crash-point) faults are used here: the property
 //! quantifies over API histories, not over injected internal failures.
 
-use crate::exec::{OutKind, Outcome, SimKernel};
+use crate::exec::{ckey, OutKind, Outcome, SimKernel};
 use crate::history::{Monitor, StepCtx};
 use crate::ops::Op;
+use crate::rng::Rng;
 use crate::run::{push_violation, violation};
-use crate::snap::Snap;
+use crate::snap::{Snap, U, V};
+use delaunay::core::facet::FacetHandle;
+use delaunay::geometry::algorithms::convex_hull::ConvexHull;
+use delaunay::geometry::point::Point;
+use delaunay::geometry::traits::coordinate::Coordinate;
+use std::panic::{catch_unwind, AssertUnwindSafe};
 
-pub struct C19;
+pub struct C19<K: SimKernel<D>, const D: usize> {
+    /// hull views kept from earlier steps (stale by now) or taken from another object (foreign)
+    old_hulls: Vec<ConvexHull<K, U, V, D>>,
+}
 
-impl<K: SimKernel<D>, const D: usize> Monitor<K, D> for C19 {
+impl<K: SimKernel<D>, const D: usize> Default for C19<K, D> {
+    fn default() -> Self {
+        Self { old_hulls: Vec::new() }
+    }
+}
+
+impl<K: SimKernel<D>, const D: usize> C19<K, D> {
+    /// The read-only half of the public API with handles of any provenance: every hull query on
+    /// an empty (default), fresh, stale and foreign hull view, with the hull's own facet handles
+    /// and fabricated / stale / out-of-range ones, at ordinary and extreme finite points.
+    fn hull_battery(&mut self, ctx: &mut StepCtx<'_, K, D>, slot: usize, post: &Snap) {
+        let mut rng = Rng::sub(ctx.header.run_seed, "c19-hull", ctx.oprec.idx);
+        if !rng.chance(1, 3) {
+            return;
+        }
+        let Some(dt) = ctx.world.objs.get(slot).and_then(|o| o.as_ref()).cloned() else { return };
+        let tri = dt.as_triangulation();
+        let mut hulls: Vec<(&'static str, ConvexHull<K, U, V, D>)> = vec![("default", ConvexHull::default())];
+        match catch_unwind(AssertUnwindSafe(|| ConvexHull::from_triangulation(tri))) {
+            Ok(Ok(h)) => hulls.push(("fresh", h)),
+            Ok(Err(_)) => {}
+            Err(p) => {
+                self.report(ctx, "hull:from_triangulation", "n/a", &p);
+                return;
+            }
+        }
+        for h in self.old_hulls.drain(..) {
+            hulls.push(("old", h));
+        }
+        // handles: a live cell with in-range and out-of-range facet indices, a fabricated cell key
+        let mut handles: Vec<FacetHandle> = Vec::new();
+        if let Some(c) = post.cells.first() {
+            handles.push(FacetHandle::new(ckey(c.key), 0));
+            handles.push(FacetHandle::new(ckey(c.key), D as u8));
+            handles.push(FacetHandle::new(ckey(c.key), 200));
+        }
+        handles.push(FacetHandle::new(ckey(0x0000_0007_0000_0063), 1));
+        let mut points: Vec<[f64; D]> = vec![[0.25; D], [1e300; D], [-1e-300; D]];
+        if let Some(v) = post.verts.first() {
+            let mut a = [0.0; D];
+            a.copy_from_slice(&v.coords);
+            if a.iter().all(|c| c.is_finite()) {
+                points.push(a);
+            }
+        }
+        for (label, hull) in &hulls {
+            let mut hs = handles.clone();
+            hs.extend(hull.facets().take(2).copied());
+            for p in &points {
+                let point = Point::new(*p);
+                let calls: [(&'static str, Box<dyn Fn() + '_>); 4] = [
+                    ("hull:is_point_outside", Box::new(|| drop(hull.is_point_outside(&point, tri)))),
+                    ("hull:find_visible_facets", Box::new(|| drop(hull.find_visible_facets(&point, tri)))),
+                    ("hull:find_nearest_visible_facet", Box::new(|| drop(hull.find_nearest_visible_facet(&point, tri)))),
+                    ("hull:validate", Box::new(|| drop(hull.validate(tri)))),
+                ];
+                for (name, f) in &calls {
+                    ctx.stats.executions += 1;
+                    if let Err(pl) = catch_unwind(AssertUnwindSafe(f)) {
+                        self.report(ctx, name, label, &pl);
+                    }
+                }
+                for h in &hs {
+                    ctx.stats.executions += 1;
+                    if let Err(pl) = catch_unwind(AssertUnwindSafe(|| drop(hull.is_facet_visible_from_point(h, &point, tri)))) {
+                        self.report(ctx, "hull:is_facet_visible_from_point", label, &pl);
+                    }
+                }
+            }
+            let _ = catch_unwind(AssertUnwindSafe(|| hull.invalidate_cache()));
+        }
+        // keep the fresh hull: it is stale (or foreign, after a clone) at a later step
+        for (label, h) in hulls {
+            if label == "fresh" && self.old_hulls.len() < 2 {
+                self.old_hulls.push(h);
+            }
+        }
+    }
+
+    fn report(&self, ctx: &mut StepCtx<'_, K, D>, call: &str, hull: &str, payload: &Box<dyn std::any::Any + Send>) {
+        let msg = payload.downcast_ref::<String>().cloned().or_else(|| payload.downcast_ref::<&str>().map(|s| (*s).to_string())).unwrap_or_else(|| "non-string panic payload".into());
+        let first = msg.lines().next().unwrap_or("").to_string();
+        let mut shape = String::new();
+        for c in first.chars().take(120) {
+            let c = if c.is_ascii_digit() { '#' } else { c };
+            if !(c == '#' && shape.ends_with('#')) {
+                shape.push(c);
+            }
+        }
+        push_violation(ctx.violations, violation("C19", "panic", ctx.step, format!("op={call}|hull={hull}|{shape}"), format!("{call} on a {hull} hull view panicked: {msg}")));
+    }
+}
+
+impl<K: SimKernel<D>, const D: usize> Monitor<K, D> for C19<K, D> {
     fn after(&mut self, ctx: &mut StepCtx<'_, K, D>, pre: Option<&Snap>, out: &Outcome, post: Option<&Snap>) {
         ctx.stats.evaluations += 1;
         let kind = ctx.oprec.op.kind();
+        if out.kind != OutKind::Panic
+            && let Some(post) = post
+        {
+            let slot = match &ctx.oprec.op {
+                Op::CloneTo { target, .. } | Op::SaveLoad { target, .. } => Some(*target),
+                op => op.obj(),
+            };
+            if let Some(slot) = slot {
+                self.hull_battery(ctx, slot, post);
+            }
+        }
         if out.kind == OutKind::Panic {
             let first_line = out.detail.lines().next().unwrap_or("").to_string();
             // strip run-specific values (keys, numbers) from the message for the signature
